@@ -32,6 +32,9 @@ fill(claim, na)
 
 
 def main():
+    both = set(CLAIMS) & set(NOT_APPLICABLE)
+    if both:
+        raise SystemExit(f"properties both claimed and not applicable: {sorted(both)}")
     checks = []
     for pid in sorted(CLAIMS):
         c = CLAIMS[pid]
